@@ -136,7 +136,7 @@ func loadAll(pkgDirs []string) (*loaded, error) {
 	prog, _ := ssautil.AllPackages(pkgs, ssa.NaiveForm|ssa.GlobalDebug|ssa.InstantiateGenerics)
 	prog.Build()
 	eng := &Engine{prog: prog, layouts: map[string][]Comp{}, heapSorts: map[string]Sort{}, heapComps: map[string]Comp{}, typeIDs: map[string]int{},
-		contracts: map[string]*FuncContract{}, specs: map[string]*SpecFunc{}, fnByKey: map[string]*ssa.Function{}, repoPrefix: modPath, pkgInvs: map[string][]Clause{}, implCache: map[string]map[string]bool{}, disabledFrames: map[string]bool{}, funcIDs: map[*ssa.Function]int{}, funcByID: map[int]*ssa.Function{}}
+		contracts: map[string]*FuncContract{}, specs: map[string]*SpecFunc{}, fnByKey: map[string]*ssa.Function{}, repoPrefix: modPath, pkgInvs: map[string][]Clause{}, implCache: map[string]map[string]bool{}, disabledFrames: map[string]bool{}, funcIDs: map[*ssa.Function]int{}, funcByID: map[int]*ssa.Function{}, ghostFields: map[string][]GhostField{}}
 	for _, cf := range ld.files {
 		for _, sf := range cf.Specs {
 			if _, dup := eng.specs[sf.Name]; dup {
@@ -145,6 +145,13 @@ func loadAll(pkgDirs []string) (*loaded, error) {
 			eng.specs[sf.Name] = sf
 		}
 		eng.axioms = append(eng.axioms, cf.Axioms...)
+		for _, gf := range cf.Ghosts {
+			pp, ok := ld.pkgOf[cf]
+			if !ok {
+				return nil, fmt.Errorf("%s: ghost fields can only be declared in a package contract file", cf.Path)
+			}
+			eng.ghostFields[pp+"."+gf.Type] = append(eng.ghostFields[pp+"."+gf.Type], gf)
+		}
 		if pp, ok := ld.pkgOf[cf]; ok {
 			eng.pkgInvs[pp] = append(eng.pkgInvs[pp], cf.Invariants...)
 		}
